@@ -305,7 +305,9 @@ Definition incr_fail (t : task) : task :=
          (t_execsync t) (t_queue t) (N.succ (t_fail t)).
 
 (* Finish in queue [q]: the handler computes the status (allowFailure of the task, which
-   after combining is the head's), unlocks after a successful Synchronization, returns;
+   after combining is the head's), on success unlocks the monitors the task carries (those of
+   the Synchronization tasks it is or has absorbed - also when its Synchronization context
+   was compacted away after a failed run: repair b4b7f41), returns;
    the worker then checks ctx.Done: when stopped the result is NOT applied.  After a failure
    the worker asks the back-off function for the delay: zero - the task is picked again at
    once; positive ([wait]) - the worker waits in waitForTask, blocked on the same head. *)
@@ -317,7 +319,7 @@ Fixpoint finish_in (qs : list qstate) (qn : N) (ok stp wait : bool) (unl : list 
         match q_running q, q_items q, q_delay q with
         | Some sync, t :: rest, false =>
             let success := ok || t_allow t in
-            let unl' := if success && sync then unl ++ t_mids t else unl in
+            let unl' := if success then unl ++ t_mids t else unl in
             if stp then (mkQ (q_name q) (q_items q) None false :: r, unl')
             else if success then (mkQ (q_name q) rest None false :: r, unl')
             else if wait then (mkQ (q_name q) (incr_fail t :: rest) (Some false) true :: r, unl')
